@@ -17,8 +17,6 @@ HARNESSES = {
     "fixed_u64_is_le_and_roundtrips": ("intenc.rs", "src/lib.rs", "complete", "full domain, loop-free", "A-intenc: FixedInt for u64"),
     "varint_u64_roundtrips": ("intenc.rs", "src/lib.rs", "complete", "full domain; loops bounded by operand width (unwind 12, unwinding assertions on)", "A-intenc: VarInt for u64"),
     "crc_unmask_inverts_mask": ("intenc.rs", "src/lib.rs", "complete", "full domain, loop-free", "U01 cross-check"),
-    "merging_iterator_follows_sorted_union_bounded": ("merging.rs", "src/versioning/file_iterators.rs", "bounded", "2 children with at most 2 and 1 entries, user keys < 3, sequence numbers < 2, one positioning + 2 moves (unwind 5)", "BOUNDED stand-in for the assumed MergingIterator cursor contract (U25/U29)"),
-    "merging_probe_concrete": ("merging_probe.rs", "src/versioning/file_iterators.rs", "bounded", "concrete 2x1", "probe"),
     "bloom_policy_new_establishes_probe_count_range": ("bloom.rs", "src/filter_policy.rs", "complete", "full usize domain, loop-free (floating point in CBMC)", "bloom_wf: 1 <= num_hash_functions <= 30 after BloomFilterPolicy::new"),
 }
 
